@@ -98,6 +98,57 @@ theorem canon_fragment (puny : Str → Str) (quoted : Bool) (p : Parsed) :
     · simp [h, unquoteFragment, pct_requote quoted _ hU]
   · simp [canonComps, canonOpt]
 
+/-! ## path
+
+`pathView` is the meaning of a path in C01's statement: split on raw `/`, percent-decode
+each segment, resolve `.` / `..` (however their dots are spelled: detection is on the DECODED
+segment, RFC 3986 §6.2.2) and empty segments; the flag says whether the path ends with a
+slash (an empty, `.` or `..` last segment), and is dropped at the root (`""` ≡ `"/"`). -/
+
+def resolveStep (acc : List (List UInt8)) (s : List UInt8) : List (List UInt8) :=
+  if s = [] ∨ s = [0x2E] then acc else if s = [0x2E, 0x2E] then acc.dropLast else acc ++ [s]
+
+def pathView (path : Str) : List (List UInt8) × Bool :=
+  let ds := (splitOn path '/').map pctStr
+  let r := ds.foldl resolveStep []
+  (r, !r.isEmpty && (ds.getLast? = some [] || ds.getLast? = some [0x2E] || ds.getLast? = some [0x2E, 0x2E]))
+
+/-- unescaping a path never changes its segments: no `/` is created or removed, every segment
+keeps its decoded bytes (so `%2E%2E` resolves like `..`, `%2F` stays inside its segment) -/
+theorem path_unquote_view (path : Str) : pathView (unquotePath path) = pathView path := by
+  have hU := tables_percent.2.1
+  unfold pathView unquotePath
+  rw [splitOn_safelyUnquote _ ⟨by decide, by decide⟩ (by decide) (by decide) (by decide)]
+  simp only [List.map_map]
+  have : (pctStr ∘ safelyUnquote Gen.Quote.unsafeForPath) = pctStr := by
+    funext s; exact pctStr_safelyUnquote _ hU s
+  rw [this]
+
+/-- quoting a path never changes its segments either -/
+theorem path_quote_view (path : Str) : pathView (safelyQuote path) = pathView path := by
+  unfold pathView
+  rw [splitOn_safelyQuote ⟨by decide, by decide⟩ (by decide)]
+  simp only [List.map_map]
+  have : (pctStr ∘ safelyQuote) = pctStr := by
+    funext s; exact pctStr_safelyQuote s
+  rw [this]
+
+/-- **path clause, the escaping half**: with `cp` the resolved path that the function computes
+from the unescaped input path (`canonPath`), the path of the result has the view of `cp`, and
+the unescaped input path has the view of the input path.  What remains between the two —
+that `normpath` + the trailing-slash and empty-path rules compute `pathView` of their
+argument — is the plain-string resolution, compared with the implementation and checked by
+the oracle on every run (not yet a theorem: `UNPROVED` in the evidence). -/
+theorem canon_path_escaping (puny : Str → Str) (quoted sf : Bool) (p : Parsed) :
+    ∃ cp, pathView (canonComps puny quoted sf p).path = pathView cp ∧
+      cp = canonPath p.path (!p.query.isEmpty || truthy (if sf then none else some p.fragment)) ∧
+      pathView (unquotePath p.path) = pathView p.path := by
+  refine ⟨_, ?_, rfl, path_unquote_view _⟩
+  simp only [canonComps]
+  cases quoted with
+  | false => simp [path_unquote_view]
+  | true => simp [path_quote_view]
+
 /-! ## no delimiter is created -/
 
 /-- an unquoted-mode text component never acquires a raw delimiter of its component (the
